@@ -56,9 +56,7 @@ def run(tier):
     bulk = [e for e in recs if e["ev"] == "RTBulk"]
     rep.coverage["sampled_round_trips"] = {e["site"]: {"n": e["n"], "same": e["same"]} for e in bulk}
     rep.coverage["port_sweeps"] = [{"site": e["site"], "ip": e["ip"][:-1], "ports": [e["lo"], e["hi"]], "out": e["out"]} for e in recs if e["ev"] == "RTSweep"]
-    for need in ("RT", "RTSweep", "RTBulk", "Variant", "Malformed", "Produce", "Consume", "Interop"):
-        if kinds.get(need, 0) == 0:
-            raise vlib.ToolError("driver produced no %s event" % need)
+    vacuous = [need for need in ("RT", "RTSweep", "RTBulk", "Variant", "Malformed", "Produce", "Consume", "Interop") if kinds.get(need, 0) == 0]
     rep.sample({"produced": [e for e in recs if e["ev"] == "Produce"][:4]})
     rep.sample({"consumed": [e for e in recs if e["ev"] == "Consume"][:6]})
     rep.sample({"round_trips": [e for e in recs if e["ev"] == "RT"][:6]})
@@ -67,7 +65,9 @@ def run(tier):
         rep.violation(v["clause"], SITES.get(v["site"], v["site"]), v["cond"], {"line": v["line"], "event": ev, "trace": trace})
     if res["nviol"] > len(res["viol"]):
         rep.notes.append("%d violations in total, first 10 of each (clause, site, cond) class kept" % res["nviol"])
-    selftest(recs, wd)
+    if vacuous and not _unknown_violations(rep):
+        raise vlib.ToolError("driver produced no %s event" % ", ".join(vacuous))
+    _selftest_guarded(rep, selftest, recs, wd)
     rep.assumptions.append("consumers multiaddr_from_address and dial_candidate are private: what they accept is taken from reading "
                            "(AddressRules!AcceptsByReading); producer socket_addr_to_multiaddr is private: its format string is reproduced")
     return rep.finish(
@@ -105,3 +105,25 @@ def selftest(recs, wd):
     for i, (name, _) in enumerate(variants):
         if i > 0 and per[i] <= per[0]:
             raise vlib.ToolError("self-test %s: corrupted trace was not rejected (%s)" % (name, per))
+
+
+def _unknown_violations(rep):
+    """Violations of this run that no known finding explains (same matching as vlib.Report.finish)."""
+    import re as _re
+    known = [f for f in vlib.load_findings() if f.get("property") == rep.pid and f.get("status") == "known"]
+    return [v for v in rep.violations
+            if not any(f["clause"] == v["clause"] and f["site"] == v["site"] and _re.fullmatch(f["cond"], str(v["cond"])) for f in known)]
+
+
+def _selftest_guarded(rep, fn, *args):
+    """The binding self-test compares violation counts of corrupted copies with the intact copy. On a tree that
+    already violates the property the comparison can be inconclusive; then the violations are the result (exit 1),
+    not a tool error. On an otherwise clean run a failing self-test stays a tool error."""
+    try:
+        fn(*args)
+    except vlib.ToolError as e:
+        if _unknown_violations(rep):
+            rep.notes.append("binding self-test inconclusive on a violating trace: %s" % e)
+            vlib.log("self-test inconclusive (trace has new violations): %s" % e)
+        else:
+            raise
